@@ -1,4 +1,13 @@
 // c17: executor and generator for property C17 (pkg/amd/manifest, pkg/amd/psb).
+//
+// C ops (also evaluated by the model): psp/bios_checksum, psp/bios_entry, psp/bios_table, find_psp/bios, efs, phys2off,
+// parsefw, extract/patch_psp/bios, psb_enabled, rootkey.
+// P oracles (implementation only): p_fletcher, p_reparse (every reported directory against the bytes of its range;
+// the EFS range re-read), p_discover (the directories laid out and referenced are the ones reported), p_extract_patch (+ the object
+// still decodes its ranges afterwards), p_seq (several lookups on one object), p_entry_bits (256 values of each flag
+// byte), p_big (FirmwareImage beyond 16 MiB, built in the worker), p_keyattr, p_efs.
+// Images and oracles use the values of the AMD specification written out (spec* constants), never the exported
+// constants of the code under test.
 package main
 
 import (
@@ -44,6 +53,20 @@ func psbErr(err error) string {
 	}
 	return "err ?"
 }
+
+// ---------- values of the AMD specification, written out (NOT taken from the code under test:
+// the generator and the oracles must not follow a changed constant) ----------
+
+const (
+	specEFSSignature = 0x55AA55AA
+	specPSPCookie    = 0x50535024 // "$PSP"
+	specPSPL2Cookie  = 0x324C5024 // "$PL2"
+	specBIOSCookie   = 0x44484224 // "$BHD"
+	specBIOSL2Cookie = 0x324C4224 // "$BL2"
+	specPSPL2Type    = 0x40
+	specBIOSL2Type   = 0x70
+	specPSBSignBIOS  = 8
+)
 
 // ---------- Firmware implementations ----------
 
@@ -370,23 +393,12 @@ func pFletcher(a []string) string {
 	return "ok"
 }
 
-// every reported directory: inside the image, declared count, length, each field = bits of its
-// record, re-read of the reported range gives the same table, checksum = Fletcher after 8 bytes
-// (the last only for the directories the generator laid out with a correct checksum: a[2] is the
-// comma-separated list of their offsets, "-" when there is none).
-func pReparse(a []string) string {
-	img := UnH(a[1])
-	fw, err := fwOf(a[0], img)
-	if err != nil {
-		return "skip"
-	}
-	p := fw.PSPFirmware()
-	built := map[uint64]bool{}
-	if a[2] != "-" {
-		for _, o := range strings.Split(a[2], ",") {
-			built[UnN(o)] = true
-		}
-	}
+// checkReparse: every directory held by the firmware object: inside the image, declared count,
+// length, each field = bits of its record, re-read of the reported range gives the same table,
+// checksum = Fletcher after 8 bytes (stored checksum compared only for the directories the
+// generator laid out with a correct one: built holds their offsets).  "" = nothing to object,
+// "skip" = no directory at all.
+func checkReparse(p *manifest.PSPFirmware, img []byte, built map[uint64]bool) string {
 	nonTrivial := false
 	checkPSP := func(name string, t *manifest.PSPDirectoryTable, off, length uint64) string {
 		if t == nil {
@@ -397,7 +409,7 @@ func pReparse(a []string) string {
 			return "FAIL " + name + " range-outside-image"
 		}
 		raw := img[off : off+length]
-		if int(t.TotalEntries) != len(t.Entries) {
+		if uint64(t.TotalEntries) != uint64(len(t.Entries)) {
 			return "FAIL " + name + " entry-count"
 		}
 		if length != 16+16*uint64(len(t.Entries)) {
@@ -419,7 +431,7 @@ func pReparse(a []string) string {
 		if l2 != length || showPSPTable(t2) != showPSPTable(t) {
 			return "FAIL " + name + " reparse-differs"
 		}
-		if built[off] && manifest.CalculatePSPDirectoryCheckSum(raw) != t.Checksum {
+		if built[off] && refFletcher(raw[8:]) != t.Checksum {
 			return "FAIL " + name + " checksum"
 		}
 		if manifest.CalculatePSPDirectoryCheckSum(raw) != refFletcher(raw[8:]) {
@@ -436,7 +448,7 @@ func pReparse(a []string) string {
 			return "FAIL " + name + " range-outside-image"
 		}
 		raw := img[off : off+length]
-		if int(t.TotalEntries) != len(t.Entries) {
+		if uint64(t.TotalEntries) != uint64(len(t.Entries)) {
 			return "FAIL " + name + " entry-count"
 		}
 		if length != 16+24*uint64(len(t.Entries)) {
@@ -458,7 +470,7 @@ func pReparse(a []string) string {
 		if l2 != length || showBIOSTable(t2) != showBIOSTable(t) {
 			return "FAIL " + name + " reparse-differs"
 		}
-		if built[off] && manifest.CalculateBiosDirectoryCheckSum(raw) != t.Checksum {
+		if built[off] && refFletcher(raw[8:]) != t.Checksum {
 			return "FAIL " + name + " checksum"
 		}
 		if manifest.CalculateBiosDirectoryCheckSum(raw) != refFletcher(raw[8:]) {
@@ -488,50 +500,201 @@ func pReparse(a []string) string {
 	if !nonTrivial {
 		return "skip"
 	}
-	return "ok"
+	return ""
 }
 
-// a[0] map, a[1] image, a[2] "psp"|"bios", a[3] level, a[4] id, a[5] instance, a[6] data
-func pExtractPatch(a []string) string {
+func builtSet(s string) map[uint64]bool {
+	built := map[uint64]bool{}
+	if s != "-" {
+		for _, o := range strings.Split(s, ",") {
+			built[UnN(o)] = true
+		}
+	}
+	return built
+}
+
+// a[0] map, a[1] image, a[2] offsets of the directories laid out with a correct checksum ("-": none)
+func pReparse(a []string) string {
 	img := UnH(a[1])
-	orig := append([]byte{}, img...)
 	fw, err := fwOf(a[0], img)
 	if err != nil {
 		return "skip"
 	}
-	level := uint(UnN(a[3]))
-	id := UnN(a[4])
-	inst := uint8(UnN(a[5]))
-	data := UnH(a[6])
-	var loc, size uint64
-	if a[2] == "psp" {
-		es, err := psb.GetPSPEntries(fw.PSPFirmware(), level, manifest.PSPDirectoryTableEntryType(id))
-		if err != nil || len(es) != 1 {
+	if r := checkReparse(fw.PSPFirmware(), img, builtSet(a[2])); r != "" {
+		return r
+	}
+	return "ok"
+}
+
+// discovery returns the directories the image holds: a[2] = "p1,p2,b1,b2", each the offset at which
+// the generator laid out the directory that the EFS / the level-1 directory refers to (or that the
+// cookie scan must reach first), "-" = the image holds no such directory, "?" = the layout leaves more
+// than one candidate; neither of the two is judged (the property speaks about the directories an image
+// contains).  A firmware that cannot be constructed at all is a failure only for an image that holds
+// the EFS and all four directories.
+func pDiscover(a []string) string {
+	img := UnH(a[1])
+	fw, err := fwOf(a[0], img)
+	if err != nil {
+		if strings.ContainsAny(a[2], "-?") {
 			return "skip"
 		}
-		loc, size = es[0].LocationOrValue, uint64(es[0].Size)
-	} else {
-		es, err := psb.GetBIOSEntries(fw.PSPFirmware(), level, manifest.BIOSDirectoryTableEntryType(id))
-		if err != nil {
-			return "skip"
+		return "FAIL discover no-firmware"
+	}
+	return checkDiscover(fw.PSPFirmware(), img, a[2])
+}
+
+func checkDiscover(p *manifest.PSPFirmware, img []byte, expect string) string {
+	exp := strings.Split(expect, ",")
+	judged := false
+	one := func(name, e string, isNil bool, off uint64) string {
+		if e == "?" || e == "-" {
+			return ""
 		}
-		n := 0
-		for _, e := range es {
-			if e.Instance == inst {
-				loc, size = e.SourceAddress, uint64(e.Size)
-				n++
-			}
+		judged = true
+		want := UnN(e)
+		if isNil {
+			return "FAIL discover " + name + " not-found want " + e
 		}
-		if n != 1 {
-			return "skip"
+		if off != want {
+			return "FAIL discover " + name + " wrong-offset " + N(off) + " want " + e
+		}
+		return ""
+	}
+	for _, r := range []string{
+		one("psp1", exp[0], p.PSPDirectoryLevel1 == nil, p.PSPDirectoryLevel1Range.Offset),
+		one("psp2", exp[1], p.PSPDirectoryLevel2 == nil, p.PSPDirectoryLevel2Range.Offset),
+		one("bios1", exp[2], p.BIOSDirectoryLevel1 == nil, p.BIOSDirectoryLevel1Range.Offset),
+		one("bios2", exp[3], p.BIOSDirectoryLevel2 == nil, p.BIOSDirectoryLevel2Range.Offset),
+	} {
+		if r != "" {
+			return r
 		}
 	}
+	if !judged {
+		return "skip"
+	}
+	return "ok"
+}
+
+// ---------- reference discovery (generator side: decides which expectations are unambiguous) ----------
+
+// a directory starts at off: cookie of the family, header complete, all declared records inside
+func refTableAt(img []byte, off uint64, w uint64, c1, c2 uint32) bool {
+	if off > uint64(len(img)) || uint64(len(img))-off < 16 {
+		return false
+	}
+	c := binary.LittleEndian.Uint32(img[off:])
+	if c != c1 && c != c2 {
+		return false
+	}
+	n := uint64(binary.LittleEndian.Uint32(img[off+8:]))
+	return 16+w*n <= uint64(len(img))-off
+}
+
+func refScan(img []byte, w uint64, c1, c2 uint32) int64 {
+	ck := le32(c1)
+	for i := 0; i+4 <= len(img); i++ {
+		if bytes.Equal(img[i:i+4], ck) && refTableAt(img, uint64(i), w, c1, c2) {
+			return int64(i)
+		}
+	}
+	return -1
+}
+
+// refL2 follows the first record of the level-2 type of the directory at off
+func refL2(img []byte, off int64, w uint64, typ byte, c1, c2 uint32) int64 {
+	if off < 0 {
+		return -1
+	}
+	n := uint64(binary.LittleEndian.Uint32(img[off+8:]))
+	for i := uint64(0); i < n; i++ {
+		rec := img[uint64(off)+16+w*i:]
+		if rec[0] != typ {
+			continue
+		}
+		loc := binary.LittleEndian.Uint64(rec[8:])
+		if loc != 0 && loc < uint64(len(img)) && refTableAt(img, loc, w, c1, c2) {
+			return int64(loc)
+		}
+		return -1
+	}
+	return -1
+}
+
+// refDiscover: where the four directories are, given the offset of the EFS (-1 = none)
+func refDiscover(img []byte, efsOff int) [4]int64 {
+	res := [4]int64{-1, -1, -1, -1}
+	e := img[efsOff:]
+	if p := uint64(binary.LittleEndian.Uint32(e[20:])); p != 0 && p < uint64(len(img)) && refTableAt(img, p, 16, specPSPCookie, specPSPL2Cookie) {
+		res[0] = int64(p)
+	} else {
+		res[0] = refScan(img, 16, specPSPCookie, specPSPL2Cookie)
+	}
+	res[1] = refL2(img, res[0], 16, specPSPL2Type, specPSPCookie, specPSPL2Cookie)
+	for _, s := range []int{24, 28, 32, 40} {
+		if p := uint64(binary.LittleEndian.Uint32(e[s:])); p != 0 && refTableAt(img, p, 24, specBIOSCookie, specBIOSL2Cookie) {
+			res[2] = int64(p)
+			break
+		}
+	}
+	if res[2] < 0 {
+		res[2] = refScan(img, 24, specBIOSCookie, specBIOSL2Cookie)
+	}
+	res[3] = refL2(img, res[2], 24, specBIOSL2Type, specBIOSCookie, specBIOSL2Cookie)
+	return res
+}
+
+// ---------- extraction and patching ----------
+
+// rawRecords: the records of one directory of the freshly parsed firmware, as bytes of the image
+func rawRecords(p *manifest.PSPFirmware, img []byte, kind string, level uint) ([][]byte, bool) {
+	var isNil bool
+	var off, length, w uint64
+	switch {
+	case kind == "psp" && level == 1:
+		isNil, off, length, w = p.PSPDirectoryLevel1 == nil, p.PSPDirectoryLevel1Range.Offset, p.PSPDirectoryLevel1Range.Length, 16
+	case kind == "psp" && level == 2:
+		isNil, off, length, w = p.PSPDirectoryLevel2 == nil, p.PSPDirectoryLevel2Range.Offset, p.PSPDirectoryLevel2Range.Length, 16
+	case kind == "bios" && level == 1:
+		isNil, off, length, w = p.BIOSDirectoryLevel1 == nil, p.BIOSDirectoryLevel1Range.Offset, p.BIOSDirectoryLevel1Range.Length, 24
+	case kind == "bios" && level == 2:
+		isNil, off, length, w = p.BIOSDirectoryLevel2 == nil, p.BIOSDirectoryLevel2Range.Offset, p.BIOSDirectoryLevel2Range.Length, 24
+	default:
+		return nil, false
+	}
+	if isNil || off > uint64(len(img)) || length > uint64(len(img))-off || length < 16 || (length-16)%w != 0 {
+		return nil, false
+	}
+	var recs [][]byte
+	for o := off + 16; o+w <= off+length; o += w {
+		recs = append(recs, img[o:o+w])
+	}
+	return recs, true
+}
+
+// the one record of this type (and instance) in the directory: location and size read off its bytes
+func uniqueRecord(recs [][]byte, kind string, id uint64, inst uint8) (loc, size uint64, ok bool) {
+	n := 0
+	for _, r := range recs {
+		if uint64(r[0]) != id || (kind == "bios" && r[2]>>4 != inst) {
+			continue
+		}
+		loc, size = binary.LittleEndian.Uint64(r[8:]), uint64(binary.LittleEndian.Uint32(r[4:]))
+		n++
+	}
+	return loc, size, n == 1
+}
+
+// checkExtractPatch: on the firmware object fw (parsed from img; orig = pristine copy of img) extract
+// and patch the entry with location loc and size size.  "" = nothing to object.
+func checkExtractPatch(fw *manifest.AMDFirmware, img, orig []byte, kind string, level uint, id uint64, inst uint8, loc, size uint64, data []byte) string {
 	inside := loc <= uint64(len(img)) && size <= uint64(len(img))-loc
 	var got []byte
-	var w bytes.Buffer
+	var w, w2 bytes.Buffer
 	var n int
-	var perr error
-	if a[2] == "psp" {
+	var err, perr error
+	if kind == "psp" {
 		got, err = psb.ExtractPSPEntry(fw, level, manifest.PSPDirectoryTableEntryType(id))
 		n, perr = psb.PatchPSPEntry(fw, level, manifest.PSPDirectoryTableEntryType(id), bytes.NewReader(data), &w)
 	} else {
@@ -568,18 +731,280 @@ func pExtractPatch(a []string) string {
 		if len(out) != len(orig) || n != len(orig) {
 			return "FAIL patch-length"
 		}
-		for k := range orig {
-			in := uint64(k) >= loc && uint64(k) < loc+size
-			if in && out[k] != data[uint64(k)-loc] {
-				return "FAIL patch-data"
+		if !bytes.Equal(out[loc:loc+size], data) {
+			return "FAIL patch-data"
+		}
+		if !bytes.Equal(out[:loc], orig[:loc]) || !bytes.Equal(out[loc+size:], orig[loc+size:]) {
+			k := 0
+			for k < len(orig) && (out[k] == orig[k] || (uint64(k) >= loc && uint64(k) < loc+size)) {
+				k++
 			}
-			if !in && out[k] != orig[k] {
-				return "FAIL patch-outside-range " + N(uint64(k))
-			}
+			return "FAIL patch-outside-range " + N(uint64(k))
+		}
+		// a second patch of the same entry on the same object gives the same image again
+		if kind == "psp" {
+			_, perr = psb.PatchPSPEntry(fw, level, manifest.PSPDirectoryTableEntryType(id), bytes.NewReader(data), &w2)
+		} else {
+			_, perr = psb.PatchBIOSEntry(fw, level, manifest.BIOSDirectoryTableEntryType(id), inst, bytes.NewReader(data), &w2)
+		}
+		if perr != nil || !bytes.Equal(w2.Bytes(), out) {
+			return "FAIL patch-not-repeatable"
 		}
 	}
 	if !bytes.Equal(img, orig) {
 		return "FAIL input-image-modified"
+	}
+	return ""
+}
+
+// a[0] map, a[1] image, a[2] "psp"|"bios", a[3] level, a[4] id, a[5] instance, a[6] data
+func pExtractPatch(a []string) string {
+	img := UnH(a[1])
+	orig := append([]byte{}, img...)
+	fw, err := fwOf(a[0], img)
+	if err != nil {
+		return "skip"
+	}
+	level := uint(UnN(a[3]))
+	id := UnN(a[4])
+	inst := uint8(UnN(a[5]))
+	recs, ok := rawRecords(fw.PSPFirmware(), img, a[2], level)
+	if !ok {
+		return "skip"
+	}
+	loc, size, ok := uniqueRecord(recs, a[2], id, inst)
+	if !ok {
+		return "skip"
+	}
+	if r := checkExtractPatch(fw, img, orig, a[2], level, id, inst, loc, size, UnH(a[6])); r != "" {
+		return r
+	}
+	// the directories held by the object still decode the bytes of their ranges
+	if r := checkReparse(fw.PSPFirmware(), img, nil); r != "" && r != "skip" {
+		return r + " after-lookup"
+	}
+	return "ok"
+}
+
+// a sequence of lookups on ONE parsed firmware object: a[0] map, a[1] image, a[2] steps
+// "kind.level.id.instance.data;..." (kind psp|bios|en = IsPSBEnabled|ge = GetEntries of directory `level`).
+// Every step is judged like p_extract_patch with the location read off the image bytes at the
+// ranges reported by the parse (before any lookup); after every step the directories the object
+// holds still decode the bytes of their reported ranges.
+func pSeq(a []string) string {
+	img := UnH(a[1])
+	orig := append([]byte{}, img...)
+	fw, err := fwOf(a[0], img)
+	if err != nil {
+		return "skip"
+	}
+	p := fw.PSPFirmware()
+	type tbl struct {
+		recs [][]byte
+		ok   bool
+	}
+	tbls := map[string]tbl{}
+	for _, k := range []string{"psp", "bios"} {
+		for _, l := range []uint{1, 2} {
+			r, ok := rawRecords(p, img, k, l)
+			tbls[k+N(uint64(l))] = tbl{r, ok}
+		}
+	}
+	judged := false
+	for i, st := range strings.Split(a[2], ";") {
+		f := strings.Split(st, ".")
+		kind, level, id, inst, data := f[0], uint(UnN(f[1])), UnN(f[2]), uint8(UnN(f[3])), UnH(f[4])
+		switch kind {
+		case "en":
+			_, _ = psb.IsPSBEnabled(fw)
+		case "ge":
+			_, _ = psb.GetEntries(p, psb.DirectoryType(level), uint32(id))
+		default:
+			t := tbls[kind+N(uint64(level))]
+			loc, size, ok := uniqueRecord(t.recs, kind, id, inst)
+			if !t.ok || !ok {
+				// not judged, but the calls are made: they must not disturb the object
+				if kind == "psp" {
+					_, _ = psb.ExtractPSPEntry(fw, level, manifest.PSPDirectoryTableEntryType(id))
+				} else {
+					_, _ = psb.ExtractBIOSEntry(fw, level, manifest.BIOSDirectoryTableEntryType(id), inst)
+				}
+				break
+			}
+			judged = true
+			if r := checkExtractPatch(fw, img, orig, kind, level, id, inst, loc, size, data); r != "" {
+				return r + " step " + N(uint64(i))
+			}
+		}
+		// whatever directories the object holds now still decode the bytes of their ranges
+		if r := checkReparse(fw.PSPFirmware(), img, nil); r != "" && r != "skip" {
+			return r + " after-lookups step " + N(uint64(i))
+		}
+	}
+	if !judged {
+		return "skip"
+	}
+	return "ok"
+}
+
+// all 256 values of one flag byte of a record through the real entry parser, every decoded field
+// against the bits of the record: a[0] "psp"|"bios", a[1] index of the swept byte, a[2] the record
+func pEntryBits(a []string) string {
+	rec := UnH(a[2])
+	idx := int(UnN(a[1]))
+	for v := 0; v < 256; v++ {
+		rec[idx] = byte(v)
+		if a[0] == "psp" {
+			e, _, err := manifest.ParsePSPDirectoryTableEntry(bytes.NewBuffer(append([]byte{}, rec...)))
+			if err != nil || showPSPEntry(*e) != refPSPEntry(rec) {
+				return fmt.Sprintf("FAIL psp-entry-bits byte %d value %02x", idx, v)
+			}
+		} else {
+			e, _, err := manifest.ParseBIOSDirectoryTableEntry(bytes.NewBuffer(append([]byte{}, rec...)))
+			if err != nil || showBIOSEntry(*e) != refBIOSEntry(rec) {
+				return fmt.Sprintf("FAIL bios-entry-bits byte %d value %02x", idx, v)
+			}
+		}
+	}
+	return "ok"
+}
+
+// a[0] index of the EFS anchor, a[1] seed of the contents, a[2] variant.
+// A FirmwareImage of 16.25 MiB (variant 4: 18 MiB) built here: the EFS at its true anchor (later anchors
+// carry signatures too: the first one in probe order counts), level-1 directories below or above 2^24,
+// level-2 directories, payloads and (variants 1, 2) the scan-located level-1 directory above 2^24, a
+// payload of 70000 bytes, one crossing 2^24, one of size 0 at the end and one ending at the end of the
+// image, a level-2 PSP directory of 300 (variant 4: 65537) entries.  Judged like the small images:
+// discovery, re-read of every range, extraction and patching.
+func pBig(a []string) (res string) {
+	k := int(UnN(a[0]))
+	r := NewRng(UnN(a[1]))
+	v := int(UnN(a[2]))
+	const hi = 1 << 24
+	n := hi + 0x40000
+	nP2 := 300
+	p2Off := hi + 0x2000
+	if v == 4 {
+		n, nP2, p2Off, k = hi+0x200000, 65537, hi+0x20000, 0
+	}
+	img := make([]byte, n)
+	efsOff := int(anchors[k] - ((1 << 32) - uint64(n)))
+	type blob struct{ off, size int }
+	blobA := blob{hi + 0x5000, 70000}
+	blobB := blob{hi - 100, 300}
+	blobC := blob{hi + 0x17000, 33}
+	blobD := blob{n, 0}
+	blobE := blob{n - 16, 16}
+	for _, b := range []blob{blobA, blobB, blobC, blobE} {
+		copy(img[b.off:], r.Bytes(b.size))
+	}
+	p1Off, b1Off, b2Off := 0x1000, 0x2000, hi+0x4000
+	if v == 1 || v == 3 {
+		p1Off = hi + 0x100
+	}
+	if v == 2 || v == 3 {
+		b1Off = hi + 0x1000
+	}
+	fl := func() uint16 { return uint16(r.U64()) }
+	// level-2 PSP directory: entry j < 256 has type j; types 100 and 255 are looked up
+	var recs [][]byte
+	for j := 0; j < nP2; j++ {
+		b := blobC
+		switch j {
+		case 100:
+			b = blobD
+		case 255:
+			b = blobE
+		}
+		typ := uint8(j)
+		if j >= 256 {
+			typ = uint8(j % 100) // repeats of the types below 100; 100 and 255 stay unique
+		}
+		recs = append(recs, pspRec(typ, uint8(r.U64()), fl(), uint32(b.size), uint64(b.off)))
+	}
+	copy(img[p2Off:], mkTable(specPSPL2Cookie, uint32(r.U64()), uint32(nP2), recs))
+	copy(img[p1Off:], mkTable(specPSPCookie, uint32(r.U64()), 3, [][]byte{
+		pspRec(0x00, 0, fl(), uint32(blobB.size), uint64(blobB.off)),
+		pspRec(specPSPL2Type, 0, fl(), 0x400, uint64(p2Off)),
+		pspRec(0x01, 1, fl(), uint32(blobA.size), uint64(blobA.off))}))
+	copy(img[b2Off:], mkTable(specBIOSL2Cookie, uint32(r.U64()), 3, [][]byte{
+		biosRec(0x05, uint8(r.U64()), 0x0F&uint8(r.U64()), uint8(r.U64()), uint32(blobC.size), uint64(blobC.off), r.U64()),
+		biosRec(0x66, uint8(r.U64()), 0x30|0x0F&uint8(r.U64()), uint8(r.U64()), uint32(blobE.size), uint64(blobE.off), r.U64()),
+		biosRec(0x66, uint8(r.U64()), 0x10|0x0F&uint8(r.U64()), uint8(r.U64()), uint32(blobB.size), uint64(blobB.off), r.U64())}))
+	copy(img[b1Off:], mkTable(specBIOSCookie, uint32(r.U64()), 4, [][]byte{
+		biosRec(0x62, uint8(r.U64()), 0x0F&uint8(r.U64()), uint8(r.U64()), uint32(blobA.size), uint64(blobA.off), r.U64()),
+		biosRec(specBIOSL2Type, uint8(r.U64()), uint8(r.U64()), uint8(r.U64()), 0x400, uint64(b2Off), r.U64()),
+		biosRec(0x60, uint8(r.U64()), 0x10|0x0F&uint8(r.U64()), uint8(r.U64()), uint32(blobC.size), uint64(blobC.off), r.U64()),
+		biosRec(0x60, uint8(r.U64()), 0x0F&uint8(r.U64()), uint8(r.U64()), uint32(blobB.size), uint64(blobB.off), r.U64())}))
+	// EFS; signatures with useless pointers at the anchors probed later
+	efs := efsBytes(r)
+	for _, s := range []int{20, 24, 28, 32, 36, 40} {
+		binary.LittleEndian.PutUint32(efs[s:], 0)
+	}
+	if v != 4 {
+		for j := k + 1; j < len(anchors); j++ {
+			d := append([]byte{}, efs...)
+			binary.LittleEndian.PutUint32(d[20:], uint32(n))
+			copy(img[anchors[j]-((1<<32)-uint64(n)):], d)
+		}
+	}
+	if v == 1 { // PSP level 1 by scan, behind two false cookies
+		for _, o := range []int{0x800, 0x900} {
+			copy(img[o:], le32(specPSPCookie))
+			binary.LittleEndian.PutUint32(img[o+8:], 0x7FFFFFF0)
+		}
+	} else {
+		binary.LittleEndian.PutUint32(efs[20:], uint32(p1Off))
+	}
+	if v == 2 { // BIOS level 1 by scan
+		copy(img[0x800:], le32(specBIOSCookie))
+		binary.LittleEndian.PutUint32(img[0x808:], 0x7FFFFFF0)
+		binary.LittleEndian.PutUint32(efs[36:], uint32(b1Off)) // the reserved word is not a pointer
+	} else {
+		binary.LittleEndian.PutUint32(efs[[]int{24, 28, 32, 40}[k%4]:], uint32(b1Off))
+	}
+	copy(img[efsOff:], efs)
+	orig := append([]byte{}, img...)
+
+	defer func() {
+		if rc := recover(); rc != nil {
+			res = fmt.Sprintf("FAIL big panic: %v", rc)
+		}
+	}()
+	fw, err := psb.ParseAMDFirmware(img)
+	if err != nil {
+		return "FAIL big no-firmware"
+	}
+	p := fw.PSPFirmware()
+	if p.EmbeddedFirmwareRange.Offset != uint64(efsOff) {
+		return "FAIL big efs-wrong-anchor"
+	}
+	exp := strings.Join([]string{N(uint64(p1Off)), N(uint64(p2Off)), N(uint64(b1Off)), N(uint64(b2Off))}, ",")
+	if rs := checkDiscover(p, img, exp); rs != "ok" {
+		return rs
+	}
+	all := map[uint64]bool{uint64(p1Off): true, uint64(p2Off): true, uint64(b1Off): true, uint64(b2Off): true}
+	if rs := checkReparse(p, img, all); rs != "" {
+		return rs
+	}
+	for _, c := range []struct {
+		kind  string
+		level uint
+		id    uint64
+		inst  uint8
+		b     blob
+		d     int // difference between the replacement's length and the entry's
+	}{
+		{"psp", 1, 0x00, 0, blobB, 0}, {"psp", 1, 0x01, 0, blobA, 0}, {"psp", 2, 255, 0, blobE, 0},
+		{"psp", 2, 100, 0, blobD, 0}, {"bios", 1, 0x60, 0, blobB, 0}, {"bios", 2, 0x66, 3, blobE, 0},
+		{"bios", 1, 0x62, 0, blobA, 1 - 2*(k%2)}, {"psp", 2, 100, 0, blobD, 1},
+	} {
+		if rs := checkExtractPatch(fw, img, orig, c.kind, c.level, c.id, c.inst, uint64(c.b.off), uint64(c.b.size), r.Bytes(c.b.size+c.d)); rs != "" {
+			return rs + " big " + c.kind + N(uint64(c.level)) + "." + N(c.id)
+		}
+	}
+	if rs := checkReparse(fw.PSPFirmware(), img, all); rs != "" {
+		return rs + " after-lookups"
 	}
 	return "ok"
 }
@@ -595,7 +1020,7 @@ func pKeyAttr(a []string) string {
 	res := blob[40:56]
 	pb, e1 := psb.GetPlatformBindingInfo(k)
 	sf, e2 := psb.GetSecurityFeatureVector(k)
-	if usage != uint32(psb.PSBSignBIOS) {
+	if usage != specPSBSignBIOS {
 		if e1 == nil || e2 == nil {
 			return "FAIL key-usage-not-checked"
 		}
@@ -629,7 +1054,7 @@ var anchors = []uint64{0xfffa0000, 0xfff20000, 0xffe20000, 0xffc20000, 0xff82000
 
 func efsBytes(r *Rng) []byte {
 	b := r.Bytes(74)
-	binary.LittleEndian.PutUint32(b, manifest.EmbeddedFirmwareStructureSignature)
+	binary.LittleEndian.PutUint32(b, specEFSSignature)
 	return b
 }
 
@@ -647,7 +1072,7 @@ func pEFS(a []string) (res string) {
 		}
 		off := ad - ((1 << 32) - uint64(n))
 		if mask>>uint(k)&1 == 1 {
-			binary.LittleEndian.PutUint32(img[off:], manifest.EmbeddedFirmwareStructureSignature)
+			binary.LittleEndian.PutUint32(img[off:], specEFSSignature)
 			img[off+20] = byte(k + 1)
 			if want < 0 {
 				want = k
@@ -761,13 +1186,17 @@ type built struct {
 	biosKeys1, biosKeys2   [][2]uint8 // type, instance
 	sums                   bool
 	tables                 map[string][]byte
+	expect                 string // p_discover expectation "p1,p2,b1,b2"
 }
 
 var pspTypePool = []uint8{0x00, 0x01, 0x08, 0x0A, 0x12, 0x21, 0x50, 0x5F}
 var biosTypePool = []uint8{0x05, 0x07, 0x60, 0x61, 0x62, 0x66, 0x68}
 
 // buildImage lays out EFS, up to four directories and the entry payloads in a small image.
-func buildImage(r *Rng) *built {
+// r drives the layout as before; ax (an independent stream) drives the features added later: unreferenced
+// backup copies of the level-1 directories in front of the referenced ones, an image that ends flush with
+// its last region, entry locations with bits above 2^24 / 2^32 set.
+func buildImage(r, ax *Rng) *built {
 	bt := &built{p1: -1, p2: -1, b1: -1, b2: -1, sums: true, tables: map[string][]byte{}}
 	type region struct {
 		name string
@@ -816,9 +1245,9 @@ func buildImage(r *Rng) *built {
 	scanOnly := nDecoy > 0 && r.Chance(4, 5) || r.Chance(1, 10)
 	var decoys [][]byte
 	for i := 0; i < nDecoy; i++ {
-		ck := le32(manifest.PSPDirectoryTableCookie)
+		ck := le32(specPSPCookie)
 		if r.Chance(2, 5) {
-			ck = le32(manifest.BIOSDirectoryTableCookie)
+			ck = le32(specBIOSCookie)
 		}
 		decoys = append(decoys, falseCookie(r, ck))
 	}
@@ -826,15 +1255,34 @@ func buildImage(r *Rng) *built {
 	for i, d := range decoys {
 		front = append(front, &region{name: fmt.Sprintf("decoy%d", i), size: len(d)})
 	}
+	// room for an unreferenced copy ("backup") of a level-1 directory below everything else: a
+	// pointer-located directory must win over a copy that the cookie scan would reach first
+	bkPSP, bkBIOS := hasP1 && ax.Chance(1, 2), hasB1 && ax.Chance(1, 2)
+	nbkP, nbkB := ax.Pick(0, 1, 2), ax.Pick(0, 1, 2)
+	if bkPSP {
+		front = append(front, &region{name: "bkp", size: 16 + 16*nbkP})
+	}
+	if bkBIOS {
+		front = append(front, &region{name: "bkb", size: 16 + 24*nbkB})
+	}
 	regs = append(front, regs...)
 	cur := 1 + r.Intn(40)
 	at := map[string]*region{}
+	lastEnd := cur
 	for _, g := range regs {
 		g.off = cur
-		cur += g.size + r.Pick(0, 0, 1, 5, 30)
+		if strings.HasPrefix(g.name, "bk") {
+			cur += g.size + ax.Pick(0, 0, 1, 5, 30)
+		} else {
+			cur += g.size + r.Pick(0, 0, 1, 5, 30)
+		}
+		lastEnd = g.off + g.size
 		at[g.name] = g
 	}
 	total := cur + r.Intn(50)
+	if ax.Chance(1, 5) {
+		total = lastEnd // the image ends flush with its last region (a directory, a payload or the EFS)
+	}
 	img := filler(r, total)
 	for i, d := range decoys {
 		copy(img[at[fmt.Sprintf("decoy%d", i)].off:], d)
@@ -852,7 +1300,16 @@ func buildImage(r *Rng) *built {
 		case 2: // ends exactly at the end
 			off = total - size
 		}
-		return uint64(off), uint32(size)
+		loc := uint64(off)
+		switch ax.Intn(24) { // a location that only looks inside when its upper bits are dropped
+		case 0:
+			loc |= 1 << 32
+		case 1:
+			loc += 1 << 24
+		case 2:
+			loc |= 1 << 63
+		}
+		return loc, uint32(size)
 	}
 	pickTypes := func(pool []uint8, n int) []uint8 {
 		ts := make([]uint8, n)
@@ -879,7 +1336,7 @@ func buildImage(r *Rng) *built {
 		}
 		for i := 0; i <= n; i++ {
 			if i == l2At {
-				recs = append(recs, pspRec(0x40, uint8(r.Intn(4)), uint16(r.U64()), 0x400, uint64(l2)))
+				recs = append(recs, pspRec(specPSPL2Type, uint8(r.Intn(4)), uint16(r.U64()), 0x400, uint64(l2)))
 			}
 			if i < n {
 				loc, size := nextBlob()
@@ -900,7 +1357,7 @@ func buildImage(r *Rng) *built {
 		}
 		for i := 0; i <= n; i++ {
 			if i == l2At {
-				recs = append(recs, biosRec(0x70, uint8(r.U64()), uint8(r.U64()), uint8(r.U64()), 0x400, uint64(l2), r.U64()))
+				recs = append(recs, biosRec(specBIOSL2Type, uint8(r.U64()), uint8(r.U64()), uint8(r.U64()), 0x400, uint64(l2), r.U64()))
 			}
 			if i < n {
 				loc, size := nextBlob()
@@ -922,22 +1379,22 @@ func buildImage(r *Rng) *built {
 		return g.off
 	}
 	if hasP2 {
-		t, ts, sz := mkPSP(manifest.PSPDirectoryTableLevel2Cookie, np2, -1)
+		t, ts, sz := mkPSP(specPSPL2Cookie, np2, -1)
 		bt.p2 = put("p2", t)
 		bt.pspTypes2, bt.pspSizes2 = ts, sz
 	}
 	if hasP1 {
-		t, ts, sz := mkPSP(manifest.PSPDirectoryTableCookie, np1, bt.p2)
+		t, ts, sz := mkPSP(specPSPCookie, np1, bt.p2)
 		bt.p1 = put("p1", t)
 		bt.pspTypes1, bt.pspSizes1 = ts, sz
 	}
 	if hasB2 {
-		t, ks, sz := mkBIOS(manifest.BIOSDirectoryTableLevel2Cookie, nb2, -1)
+		t, ks, sz := mkBIOS(specBIOSL2Cookie, nb2, -1)
 		bt.b2 = put("b2", t)
 		bt.biosKeys2, bt.biosSizes2 = ks, sz
 	}
 	if hasB1 {
-		t, ks, sz := mkBIOS(manifest.BIOSDirectoryTableCookie, nb1, bt.b2)
+		t, ks, sz := mkBIOS(specBIOSCookie, nb1, bt.b2)
 		bt.b1 = put("b1", t)
 		bt.biosKeys1, bt.biosSizes1 = ks, sz
 	}
@@ -977,12 +1434,54 @@ func buildImage(r *Rng) *built {
 		binary.LittleEndian.PutUint32(efs[s:], v)
 	}
 	binary.LittleEndian.PutUint32(efs[36:], uint32(r.U64()))
+	// pointers of erased flash and with the top bit set (far beyond any image): passed over like the others
+	for _, s := range slots {
+		if ax.Chance(1, 8) {
+			binary.LittleEndian.PutUint32(efs[s:], []uint32{0xFFFFFFFF, 0xFFFFFFF0, 0x80000000}[ax.Intn(3)])
+		}
+	}
+	if pmode == 1 && ax.Chance(1, 2) {
+		binary.LittleEndian.PutUint32(efs[20:], []uint32{0xFFFFFFFF, 0xFFFFFFF0, 0x80000000}[ax.Intn(3)])
+	}
+	biosByPointer := false
 	if bt.b1 >= 0 && !scanOnly && r.Chance(4, 5) {
 		binary.LittleEndian.PutUint32(efs[slots[r.Intn(4)]:], uint32(bt.b1))
+		biosByPointer = true
 	}
 	bt.efsOff = put("efs", efs)
 	bt.base = anchors[r.Intn(6)] - uint64(bt.efsOff)
 	bt.img = img
+	// the backup copies, only where the EFS points at the real directory
+	if bkPSP && bt.p1 >= 0 && pmode >= 3 {
+		var recs [][]byte
+		for i := 0; i < nbkP; i++ {
+			recs = append(recs, pspRec(pspTypePool[ax.Intn(len(pspTypePool))], 0, uint16(ax.U64()), 4, uint64(1+ax.Intn(total))))
+		}
+		copy(img[at["bkp"].off:], mkTable(specPSPCookie, uint32(ax.U64()), uint32(nbkP), recs))
+	}
+	if bkBIOS && biosByPointer {
+		var recs [][]byte
+		for i := 0; i < nbkB; i++ {
+			recs = append(recs, biosRec(biosTypePool[ax.Intn(len(biosTypePool))], 0, uint8(ax.U64()), uint8(ax.U64()), 4, uint64(1+ax.Intn(total)), ax.U64()))
+		}
+		copy(img[at["bkb"].off:], mkTable(specBIOSCookie, uint32(ax.U64()), uint32(nbkB), recs))
+	}
+	// what discovery must report: the layout (bt.p1..) where an independent walk of the image reaches
+	// the same directory; anything else (a false cookie that happens to be an empty directory, ...) is
+	// left unjudged
+	ref := refDiscover(img, bt.efsOff)
+	var exp []string
+	for i, o := range []int{bt.p1, bt.p2, bt.b1, bt.b2} {
+		switch {
+		case int64(o) != ref[i]:
+			exp = append(exp, "?")
+		case o < 0:
+			exp = append(exp, "-")
+		default:
+			exp = append(exp, N(uint64(o)))
+		}
+	}
+	bt.expect = strings.Join(exp, ",")
 	return bt
 }
 
@@ -995,7 +1494,7 @@ func mutate(r *Rng, bt *built) {
 			tbl = append(tbl, o)
 		}
 	}
-	switch r.Intn(9) {
+	switch r.Intn(10) {
 	case 0: // truncate
 		bt.img = img[:r.Intn(len(img)+1)]
 	case 1: // TotalEntries boundary
@@ -1014,9 +1513,9 @@ func mutate(r *Rng, bt *built) {
 			bt.sums = false
 		}
 	case 3: // a decoy level-1 cookie in front of everything (scan path skips it by 4)
-		c := le32(manifest.PSPDirectoryTableCookie)
+		c := le32(specPSPCookie)
 		if r.Bool() {
-			c = le32(manifest.BIOSDirectoryTableCookie)
+			c = le32(specBIOSCookie)
 		}
 		copy(img[0:], c)
 		if len(img) > 12 {
@@ -1046,6 +1545,23 @@ func mutate(r *Rng, bt *built) {
 			for i := 0; i < n && o+16+16*i+16 <= len(img); i++ {
 				if img[o+16+16*i] == 0x40 {
 					binary.LittleEndian.PutUint64(img[o+16+16*i+8:], []uint64{0, uint64(len(img)), uint64(len(img)) - 1, 1 << 40, 0xFFFFFFFFFFFFFFFF}[r.Intn(5)])
+					bt.sums = false
+				}
+			}
+		}
+	case 9: // level-2 pointer of either family with bits above the image size set: there is no such directory
+		for _, c := range []struct {
+			o, w int
+			typ  byte
+		}{{bt.p1, 16, specPSPL2Type}, {bt.b1, 24, specBIOSL2Type}} {
+			if c.o < 0 || r.Bool() {
+				continue
+			}
+			n := int(binary.LittleEndian.Uint32(img[c.o+8:]))
+			for i := 0; i < n && c.o+16+c.w*i+c.w <= len(img); i++ {
+				if rec := img[c.o+16+c.w*i:]; rec[0] == c.typ {
+					v := binary.LittleEndian.Uint64(rec[8:])
+					binary.LittleEndian.PutUint64(rec[8:], []uint64{v + 1<<24, v | 1<<32, v | 1<<63, v + 1<<16}[r.Intn(4)])
 					bt.sums = false
 				}
 			}
@@ -1090,11 +1606,23 @@ func gen(r *Rng, tier string, emit Emit) {
 	// unrepaired FindEmbeddedFirmwareStructure), first so that it is reported first
 	emit("C", "efs", H(make([]byte, (1<<32)-int(anchors[0])-1)))
 
-	// ---- keys ----
+	// the sub-streams, forked in the order in which the sections used to fork them (so that their
+	// cases stay what they were), then the streams of the features added later
 	kr := r.Fork(6)
+	fr := r.Fork(1)
+	er := r.Fork(2)
+	tr := r.Fork(3)
+	ir := r.Fork(4)
+	pr := r.Fork(5)
+	ax := r.Fork(7)  // images: backups, flush ends, high location bits
+	sx := r.Fork(8)  // lookup sequences on one firmware object
+	bx := r.Fork(9)  // images beyond 16 MiB
+	tx := r.Fork(10) // directories with more than 255 entries
+
+	// ---- keys ----
 	for v := 0; v < 256; v++ { // every value of the two decoded bytes
 		res := kr.Bytes(16)
-		res[1], res[3] = byte(v), byte(v)
+		res[1], res[3] = byte(v), byte(v*167+13) // both bytes run through all 256 values, not in step
 		blob := rootKeyBlob(kr, 8, res, 8*uint32(1+kr.Intn(4)), 8*uint32(1+kr.Intn(8)), true, 0)
 		emit("C", "rootkey", H(blob))
 		emit("P", "p_keyattr", H(blob))
@@ -1111,8 +1639,13 @@ func gen(r *Rng, tier string, emit Emit) {
 		emit("P", "p_keyattr", H(blob))
 	}
 
+	for _, usage := range []uint32{0x108, 0x10008, 0x01000008, 0x80000008, 0x800, 0x80, 8} { // 8 in the low byte/half only
+		blob := rootKeyBlob(tx, usage, tx.Bytes(16), 8, 16, true, 0)
+		emit("C", "rootkey", H(blob))
+		emit("P", "p_keyattr", H(blob))
+	}
+
 	// ---- Fletcher ----
-	fr := r.Fork(1)
 	lens := []int{0, 1, 2, 3, 718, 719, 720, 721, 722, 1439, 1440, 1441, 1442, 2160, 2161}
 	for it := 0; it < 150*mult; it++ {
 		n := fr.Intn(2500)
@@ -1153,7 +1686,6 @@ func gen(r *Rng, tier string, emit Emit) {
 	}
 
 	// ---- single entries: all 256 values of each flag byte, then random and short buffers ----
-	er := r.Fork(2)
 	for v := 0; v < 256; v++ {
 		b := er.Bytes(24)
 		b[2] = byte(v)
@@ -1165,25 +1697,34 @@ func gen(r *Rng, tier string, emit Emit) {
 		p[3] = byte(v)
 		emit("C", "psp_entry", H(p))
 	}
+	// the same sweep on the implementation alone, judged against the bits of the record
+	for it := 0; it < 2*mult; it++ {
+		for _, idx := range []int{2, 3} {
+			emit("P", "p_entry_bits", "psp", N(uint64(idx)), H(tx.Bytes(16)))
+			emit("P", "p_entry_bits", "bios", N(uint64(idx)), H(tx.Bytes(24)))
+		}
+	}
 	for it := 0; it < 100*mult; it++ {
 		emit("C", "psp_entry", H(er.Bytes(er.Pick(0, 1, 2, 3, 4, 7, 8, 15, 16, 17, 40))))
 		emit("C", "bios_entry", H(er.Bytes(er.Pick(0, 1, 2, 3, 4, 5, 8, 9, 16, 23, 24, 25, 40))))
 	}
 
 	// ---- tables on their own ----
-	tr := r.Fork(3)
 	for it := 0; it < 250*mult; it++ {
 		rr := tr.Fork(uint64(it))
 		n := rr.Pick(0, 1, 2, 3, 7, 20)
+		if it%25 == 24 { // entry counts around and beyond one byte
+			n = tx.Pick(255, 256, 257, 300)
+		}
 		var precs, brecs [][]byte
 		for i := 0; i < n; i++ {
 			precs = append(precs, pspRec(uint8(rr.U64()), uint8(rr.U64()), uint16(rr.U64()), uint32(rr.U64()), rr.U64()))
 			brecs = append(brecs, biosRec(uint8(rr.U64()), uint8(rr.U64()), uint8(rr.U64()), uint8(rr.U64()), uint32(rr.U64()), rr.U64(), rr.U64()))
 		}
-		pc := uint32(manifest.PSPDirectoryTableCookie)
-		bc := uint32(manifest.BIOSDirectoryTableCookie)
+		pc := uint32(specPSPCookie)
+		bc := uint32(specBIOSCookie)
 		if rr.Bool() {
-			pc, bc = manifest.PSPDirectoryTableLevel2Cookie, manifest.BIOSDirectoryTableLevel2Cookie
+			pc, bc = specPSPL2Cookie, specBIOSL2Cookie
 		}
 		pt := mkTable(pc, uint32(rr.U64()), uint32(n), precs)
 		btb := mkTable(bc, uint32(rr.U64()), uint32(n), brecs)
@@ -1220,9 +1761,9 @@ func gen(r *Rng, tier string, emit Emit) {
 			scan := append(pre, d...)
 			// 0..4 false cookies in front: the running offset of the scan must accumulate every skip
 			{
-				ck := le32(manifest.PSPDirectoryTableCookie)
+				ck := le32(specPSPCookie)
 				if c.fn == "bios_table" {
-					ck = le32(manifest.BIOSDirectoryTableCookie)
+					ck = le32(specBIOSCookie)
 				}
 				for k := rr.Pick(0, 0, 1, 2, 2, 3, 4); k > 0; k-- {
 					scan = append(falseCookie(rr, ck), scan...)
@@ -1240,11 +1781,11 @@ func gen(r *Rng, tier string, emit Emit) {
 	}
 
 	// ---- whole small images through a Firmware with a shifted address map ----
-	ir := r.Fork(4)
 	for it := 0; it < 260*mult; it++ {
 		rr := ir.Fork(uint64(it))
-		bt := buildImage(rr)
-		if rr.Chance(2, 5) {
+		bt := buildImage(rr, ax.Fork(uint64(it)))
+		mutated := rr.Chance(2, 5)
+		if mutated {
 			mutate(rr, bt)
 		}
 		mp := N(bt.base)
@@ -1263,6 +1804,9 @@ func gen(r *Rng, tier string, emit Emit) {
 		}
 		emit("C", "parsefw", mp, img)
 		emit("P", "p_reparse", mp, img, sums)
+		if !mutated {
+			emit("P", "p_discover", mp, img, bt.expect)
+		}
 		emit("C", "psb_enabled", mp, img)
 		// PSP entry
 		level := 1
@@ -1318,10 +1862,67 @@ func gen(r *Rng, tier string, emit Emit) {
 		emit("C", "extract_bios", mp, img, N(uint64(level)), N(uint64(bid)), N(uint64(inst)))
 		emit("C", "patch_bios", mp, img, N(uint64(level)), N(uint64(bid)), N(uint64(inst)), H(data))
 		emit("P", "p_extract_patch", mp, img, "bios", N(uint64(level)), N(uint64(bid)), N(uint64(inst)), H(data))
+		// several lookups on one parsed object, in any order of family and level, the same entry twice
+		{
+			sr := sx.Fork(uint64(it))
+			var steps []string
+			for k := sr.Pick(2, 3, 4, 6); k > 0; k-- {
+				lv := sr.Pick(1, 1, 2, 2, 1, 2, 1, 2, 1, 2, 0, 3)
+				switch sr.Intn(8) {
+				case 0:
+					steps = append(steps, "en.0.0.0.")
+				case 1:
+					steps = append(steps, "ge."+N(uint64(sr.Intn(5)))+"."+N(uint64(pspTypePool[sr.Intn(len(pspTypePool))]))+".0.")
+				case 2, 3, 4:
+					ts, ss := bt.pspTypes1, bt.pspSizes1
+					if lv == 2 {
+						ts, ss = bt.pspTypes2, bt.pspSizes2
+					}
+					id, d := uint8(sr.U64()), sr.Bytes(sr.Pick(0, 7, 16))
+					if len(ts) > 0 {
+						j := sr.Intn(len(ts))
+						id = ts[j]
+						if sr.Chance(3, 4) {
+							d = sr.Bytes(ss[j])
+						}
+					}
+					steps = append(steps, "psp."+N(uint64(lv))+"."+N(uint64(id))+".0."+H(d))
+				default:
+					ks, ss := bt.biosKeys1, bt.biosSizes1
+					if lv == 2 {
+						ks, ss = bt.biosKeys2, bt.biosSizes2
+					}
+					id, in, d := uint8(sr.U64()), uint8(sr.Intn(16)), sr.Bytes(sr.Pick(0, 7, 16))
+					if len(ks) > 0 {
+						j := sr.Intn(len(ks))
+						id, in = ks[j][0], ks[j][1]
+						if sr.Chance(3, 4) {
+							d = sr.Bytes(ss[j])
+						}
+					}
+					steps = append(steps, "bios."+N(uint64(lv))+"."+N(uint64(id))+"."+N(uint64(in))+"."+H(d))
+				}
+				if len(steps) > 0 && sr.Chance(1, 4) { // the same step again
+					steps = append(steps, steps[sr.Intn(len(steps))])
+				}
+			}
+			emit("P", "p_seq", mp, img, strings.Join(steps, ";"))
+		}
+	}
+
+	// ---- images beyond 16 MiB (built in the worker; oracles only): directories, payloads and the EFS at
+	// offsets above 2^24, a payload above 2^16 bytes, a level-2 directory with more than 255 entries ----
+	for k := range anchors {
+		emit("P", "p_big", N(uint64(k)), N(bx.U64()), N(uint64(k%3)))
+	}
+	if tier == "thorough" {
+		for it := 0; it < 12; it++ {
+			emit("P", "p_big", N(uint64(bx.Intn(6))), N(bx.U64()), N(uint64(bx.Intn(4))))
+		}
+		emit("P", "p_big", "0", N(bx.U64()), "4") // 65537 entries
 	}
 
 	// ---- EFS probing with manifest.FirmwareImage at true sizes ----
-	pr := r.Fork(5)
 	for k, ad := range anchors {
 		need := int((1 << 32) - ad)
 		for _, d := range []int{-5, -4, -3, -2, -1, 0, 1, 4096} {
@@ -1376,10 +1977,10 @@ func gen(r *Rng, tier string, emit Emit) {
 				copy(img[off:], e)
 			}
 			// one PSP directory at 0x100 (pointer-located) and one BIOS directory found by scan
-			pt := mkTable(manifest.PSPDirectoryTableCookie, 0, 2, [][]byte{
+			pt := mkTable(specPSPCookie, 0, 2, [][]byte{
 				pspRec(0x00, 0, 0, 64, 0x400), pspRec(0x0A, 1, 0xC000, 16, uint64(n-16))})
 			copy(img[0x100:], pt)
-			btb := mkTable(manifest.BIOSDirectoryTableCookie, 0, 1, [][]byte{biosRec(0x62, 0, 0x10, 9, 32, 0x500, 1)})
+			btb := mkTable(specBIOSCookie, 0, 1, [][]byte{biosRec(0x62, 0, 0x10, 9, 32, 0x500, 1)})
 			copy(img[0x300:], btb)
 			copy(img[0x400:], pr.Bytes(64))
 			emit("C", "efs", H(img))
@@ -1417,5 +2018,9 @@ func main() {
 	Register("p_extract_patch", pExtractPatch)
 	Register("p_keyattr", pKeyAttr)
 	Register("p_efs", pEFS)
+	Register("p_discover", pDiscover)
+	Register("p_seq", pSeq)
+	Register("p_entry_bits", pEntryBits)
+	Register("p_big", pBig)
 	Main(gen)
 }
